@@ -1,6 +1,7 @@
 //! rt-graph: C01–C10, C14 on the real aranya-runtime with the AuditPolicy instrument.
 mod exec;
 mod history;
+mod probe;
 mod props;
 mod sim;
 mod universe;
@@ -14,6 +15,7 @@ fn main() {
         "C08" => props::trx::run(&args),
         "C10" => props::init::run(&args),
         "C14" => props::session::run(&args),
+        "PROBE" => probe::run(),
         "C05" => props::finalize::run(&args),
         "C06" => props::reject::run(&args),
         p => mcx::machinery_error(&format!("rt-graph does not serve {p}")),
